@@ -1,14 +1,21 @@
 import NdnModel.Keychain
+import NdnModel.Sha256
 /-  Line protocol for the keychain model:
-    `C15 <op>;<op>;…`   (`.` = empty history), each op optionally suffixed `!k` (fault at its k-th fault point)
-      ni:<i> | ti:<i> | nk:<i>:<e|x> | ic:<key>:<cert> | sdi:<i> | sdk:<i>:<key> | sdc:<key>:<cert>
+    `C15 <cfg> <names> <op>;<op>;…`   (`.` = empty history), each op optionally suffixed `!k` (fault at its k-th
+    fault point)
+      cfg   ::= g | u          (TpmFile.generate_key as repaired / the code before the repair)
+      names ::= - | <key>=<hex of the encoded key name>,…     (the NDN names the harness mapped the key names to;
+                the file name of a key is SHA-256 of these bytes, of a key that is not listed a number above 2^256)
+      ni:<i> | ti:<i> | nk:<i>:<e|x>:<spec> | ic:<key>:<cert> | sdi:<i> | sdk:<i>:<key> | sdc:<key>:<cert>
       di:<i> | dk:<key> | dc:<cert> | dcv:<key>:<cert> | gs:<sel>:<loc> | ro
-      key ::= <idn>.<kid>     cert ::= <idn>.<kid>.<iss>    sel ::= d | i<i> | k<key> | c<cert>    loc ::= ~ | <n>
+      spec ::= r | h | b | x<n>      (key_id_type random / sha256 / unsupported, explicit key_id)
+      key ::= <idn>.<kid>   kid ::= <p> | x<n> | h<p>   (random id of pair p / explicit id / sha256 of pair p's public key)
+      cert ::= <key>.<iss>    sel ::= d | i<i> | k<key> | c<cert>    loc ::= ~ | <n>
     answer: one token per op  `<res>|<dump>`
-      res  ::= ok | ok=<key>,<loc> | E:<ExceptionClass>         loc ::= c<cert> | l<n>
-      dump ::= D<0|1>#<len>{<id>;…}T{<key>,…}
-      id   ::= <n>[*]#<len>(<keyv>,…)      keyv ::= <key>[*]#<len>[<cert>[*],…]
-    everything sorted (ids by name; keys by kid,idn; certs by kid,idn,iss). -/
+      res  ::= ok | ok=<pair the signer signs with>,<loc> | E:<ExceptionClass>         loc ::= c<cert> | l<n>
+      dump ::= D<0|1>#<len>{<id>;…}T{<file>=<pair>,…}      file ::= first 12 hex digits of the file name
+      id   ::= <n>[*]#<len>(<keyv>,…)      keyv ::= <key>@<pair of the key bits>[*]#<len>[<cert>[*],…]
+    everything sorted (ids by name; keys by kind-of-id,number,idn; certs likewise then iss; files by pair). -/
 namespace Ndn.Drv.C15
 open Ndn Ndn.Keychain
 
@@ -24,15 +31,23 @@ def lexLe : List Nat → List Nat → Bool
   | _ :: _, [] => false
   | a :: r, b :: q => a < b || (a == b && lexLe r q)
 
-def showKey (k : KeyName) : String := toString k.idn ++ "." ++ toString k.kid
+def showKid : KeyId → String
+  | .rnd p => toString p
+  | .lit x => "x" ++ toString x
+  | .hash p => "h" ++ toString p
+def kidOrd : KeyId → List Nat
+  | .rnd p => [0, p]
+  | .lit x => [1, x]
+  | .hash p => [2, p]
+def showKey (k : KeyName) : String := toString k.idn ++ "." ++ showKid k.kid
 def showCert (c : CertName) : String := showKey c.key ++ "." ++ toString c.iss
 def star (b : Bool) : String := if b then "*" else ""
-def keyOrd (k : KeyName) : List Nat := [k.kid, k.idn]
-def certOrd (c : CertName) : List Nat := [c.key.kid, c.key.idn, c.iss]
+def keyOrd (k : KeyName) : List Nat := kidOrd k.kid ++ [k.idn]
+def certOrd (c : CertName) : List Nat := keyOrd c.key ++ [c.iss]
 
 def showKeyView (d : Db) (kr : Row KeyName) : String :=
   let cs := isort (fun a b => lexLe (certOrd a.name) (certOrd b.name)) (d.certs.rows.filter fun r => r.owner == kr.rid)
-  showKey kr.name ++ star kr.dflt ++ "#" ++ toString (certLen d kr.rid) ++ "["
+  showKey kr.name ++ "@" ++ toString kr.data ++ star kr.dflt ++ "#" ++ toString (certLen d kr.rid) ++ "["
     ++ ",".intercalate (cs.map fun c => showCert c.name ++ star c.dflt) ++ "]"
 
 def showIdView (d : Db) (ir : Row Nat) : String :=
@@ -40,12 +55,21 @@ def showIdView (d : Db) (ir : Row Nat) : String :=
   toString ir.name ++ star ir.dflt ++ "#" ++ toString (keyLen d ir.rid) ++ "("
     ++ ",".intercalate (ks.map (showKeyView d)) ++ ")"
 
+def hexNat : Nat → Nat → List Char
+  | 0, _ => []
+  | d + 1, n => hexNat d (n / 16) ++ [hexDigit (n % 16)]
+
+/-- the first 12 hex digits of a SHA-256 file name; `?<n>` for the stand-in name of an unlisted key -/
+def showFile (f : FileName) : String :=
+  if f < 2 ^ 256 then String.ofList ((hexNat 64 f).take 12) else "?" ++ toString (f - 2 ^ 256)
+
 def showDump (s : Sys) : String :=
   let d := s.cur
   let is := isort (fun a b => a.name ≤ b.name) d.ids.rows
-  let tp := isort (fun a b => lexLe (keyOrd a) (keyOrd b)) s.tpm
+  let tp := isort (fun a b => lexLe [a.2, a.1] [b.2, b.1]) s.tpm
   "D" ++ (if (defaultId? d).isSome then "1" else "0") ++ "#" ++ toString (idLen d) ++ "{"
-    ++ ";".intercalate (is.map (showIdView d)) ++ "}T{" ++ ",".intercalate (tp.map showKey) ++ "}"
+    ++ ";".intercalate (is.map (showIdView d)) ++ "}T{"
+    ++ ",".intercalate (tp.map fun e => showFile e.1 ++ "=" ++ toString e.2) ++ "}"
 
 def showLoc : Loc → String
   | .cert c => "c" ++ showCert c
@@ -53,18 +77,30 @@ def showLoc : Loc → String
 
 def showRes : Except KErr (Option Signer) → String
   | .ok none => "ok"
-  | .ok (some sg) => "ok=" ++ showKey sg.key ++ "," ++ showLoc sg.loc
+  | .ok (some sg) => "ok=" ++ toString sg.priv ++ "," ++ showLoc sg.loc
   | .error e => "E:" ++ e.name
+
+def parseKid (s : String) : Option KeyId :=
+  if s.startsWith "x" then (s.drop 1).toString.toNat?.map .lit
+  else if s.startsWith "h" then (s.drop 1).toString.toNat?.map .hash
+  else s.toNat?.map .rnd
 
 def parseKey (s : String) : Option KeyName :=
   match s.splitOn "." with
-  | [a, b] => do pure ⟨← a.toNat?, ← b.toNat?⟩
+  | [a, b] => do pure ⟨← a.toNat?, ← parseKid b⟩
   | _ => none
 
 def parseCert (s : String) : Option CertName :=
   match s.splitOn "." with
-  | [a, b, c] => do pure ⟨⟨← a.toNat?, ← b.toNat?⟩, ← c.toNat?⟩
+  | [a, b, c] => do pure ⟨⟨← a.toNat?, ← parseKid b⟩, ← c.toNat?⟩
   | _ => none
+
+def parseSpec (s : String) : Option KeyIdSpec :=
+  if s == "r" then some .random
+  else if s == "h" then some .sha256
+  else if s == "b" then some .badType
+  else if s.startsWith "x" then (s.drop 1).toString.toNat?.map .explicit
+  else none
 
 def parseSel (s : String) : Option Sel :=
   if s == "d" then some .dflt
@@ -80,9 +116,10 @@ def parseOp (s : String) : Option Op :=
   match s.splitOn ":" with
   | ["ni", i] => i.toNat?.map .newIdentity
   | ["ti", i] => i.toNat?.map .touchIdentity
-  | ["nk", i, t] => do
+  | ["nk", i, t, sp] => do
     let n ← i.toNat?
-    if t == "e" then some (.newKey n false) else if t == "x" then some (.newKey n true) else none
+    let spec ← parseSpec sp
+    if t == "e" then some (.newKey n false spec) else if t == "x" then some (.newKey n true spec) else none
   | ["ic", k, c] => do pure (.importCert (← parseKey k) (← parseCert c))
   | ["sdi", i] => i.toNat?.map .setDefaultIdentity
   | ["sdk", i, k] => do pure (.setDefaultKey (← i.toNat?) (← parseKey k))
@@ -107,12 +144,34 @@ def runShow (s : Sys) : List (Op × Option Nat) → List String
     let (res, s') := step s o
     (showRes res ++ "|" ++ showDump s') :: runShow s' r
 
+def natOfBytes (bs : List UInt8) : Nat := bs.foldl (fun a b => a * 256 + b.toNat) 0
+
+def parseNames (s : String) : Option (List (KeyName × Bytes)) :=
+  if s == "-" then some [] else
+  (s.splitOn ",").mapM fun e =>
+    match e.splitOn "=" with
+    | [k, h] => do pure (← parseKey k, ← fromHex h)
+    | _ => none
+
+/-- `TpmFile._to_file_name` over the names the harness uses; a stand-in above 2^256 (injective for the sizes in use)
+    for a key the harness has no NDN name for -/
+def fileNameOf (names : List (KeyName × Bytes)) (k : KeyName) : FileName :=
+  match names.find? fun e => e.1 = k with
+  | some e => natOfBytes (Sha256.sha256 e.2)
+  | none =>
+    match kidOrd k.kid with
+    | [c, n] => 2 ^ 256 + (k.idn * 4 + c) * 1000000000 + n
+    | _ => 2 ^ 256
+
 def handle (args : List String) : String :=
   match args with
-  | [ops] =>
-    match (if ops == "." then some [] else (ops.splitOn ";").mapM parseOpF) with
-    | some os => "ok " ++ " ".intercalate (runShow Sys.init os)
-    | none => "bad-op"
+  | [cfg, names, ops] =>
+    match parseNames names, (if ops == "." then some [] else (ops.splitOn ";").mapM parseOpF) with
+    | some nm, some os =>
+      if cfg == "g" then "ok " ++ " ".intercalate (runShow (Sys.init (fileNameOf nm)) os)
+      else if cfg == "u" then "ok " ++ " ".intercalate (runShow (Sys.initUnchanged (fileNameOf nm)) os)
+      else "bad-op"
+    | _, _ => "bad-op"
   | _ => "bad-op"
 
 end Ndn.Drv.C15
